@@ -98,9 +98,9 @@ func probeRun(name, stdin string, args []string) (out string, status int) {
 // programs
 
 // The 12 representative argument strings, by key name.
-var argNames = []string{"a", "empty", "b_c", "lead", "star", "qmark", "semi", "dollar", "dq", "sq", "dashn", "bslash"}
+var argNames = []string{"a", "empty", "b_c", "lead", "star", "qmark", "semi", "dollar", "dq", "sq", "dashn", "bslash", "b__c", "trail", "tab"}
 var argValue = map[string]string{"a": "a", "empty": "", "b_c": "b c", "lead": " lead", "star": "*", "qmark": "?", "semi": "a;b",
-	"dollar": "$HOME", "dq": `"q"`, "sq": "'q'", "dashn": "-n", "bslash": `\`}
+	"dollar": "$HOME", "dq": `"q"`, "sq": "'q'", "dashn": "-n", "bslash": `\`, "b__c": "b  c", "trail": "t  ", "tab": "x\ty"}
 
 var origins = []string{"literal", "var", "concat", "call"}
 
